@@ -46,6 +46,9 @@ func New(dbPath string) (*Manager, error) {
 
 func (m *Manager) Set(key []byte, val []byte) error {
 	vhook.AtID("badger.set", string(key))
+	if err := vhook.OpFault("badger.set", string(key)); err != nil {
+		return err
+	}
 	return m.db.Update(func(txn *badger.Txn) error {
 		return txn.Set(key, val)
 	})
@@ -75,6 +78,9 @@ func (m *Manager) Get(key []byte) (data []byte, err error) {
 
 func (m *Manager) Delete(key []byte) error {
 	vhook.AtID("badger.delete", string(key))
+	if err := vhook.OpFault("badger.delete", string(key)); err != nil {
+		return err
+	}
 	return m.db.Update(func(txn *badger.Txn) error {
 		return txn.Delete(key)
 	})
@@ -100,6 +106,9 @@ func (m *Manager) RunTransaction(ctx context.Context, fn transactor.TransactionF
 	}
 
 	vhook.At("badger.txn")
+	if err := vhook.OpFault("badger.txn", ""); err != nil {
+		return err
+	}
 	return m.db.Update(func(txn *badger.Txn) error {
 		return fn(context.WithValue(ctx, ctxTxn{}, txn))
 	})
